@@ -1106,6 +1106,9 @@ fn run_call(m: Model, pool: &[VarId], call: Call) -> Res {
 pub struct Run {
     pub steps: Vec<R>,
     pub call: Option<Res>,
+    /// a fluent posting step (an equality applied at posting time) left an integer variable with
+    /// an EMPTY domain without recording an error: the state behind `empty-domain-view-panic`
+    pub emptied: bool,
 }
 
 /// execute a case: every step and the final call under its own `catch_unwind`; a panic in a
@@ -1115,10 +1118,11 @@ pub fn execute(case: &Case) -> Run {
         Some(m) => Built { m, pool: vec![] },
         None => {
             let (loc, msg) = take_panic();
-            return Run { steps: vec![R::Panic { file: loc_file(&loc), loc, msg }], call: None };
+            return Run { steps: vec![R::Panic { file: loc_file(&loc), loc, msg }], call: None, emptied: false };
         }
     };
     let mut rs = vec![];
+    let mut emptied = false;
     for (si, s) in case.steps.iter().enumerate() {
         progress(&format!("step {si} {}", s.show()));
         let r = guarded(|| run_step(&mut b, s));
@@ -1126,10 +1130,15 @@ pub fn execute(case: &Case) -> Run {
             None => {
                 let (loc, msg) = take_panic();
                 rs.push(R::Panic { file: loc_file(&loc), loc, msg });
-                return Run { steps: rs, call: None };
+                return Run { steps: rs, call: None, emptied };
             }
             Some(None) => rs.push(R::Skipped),
-            Some(Some(Ok(()))) => rs.push(R::Ok),
+            Some(Some(Ok(()))) => {
+                if matches!(s, S::Fluent { .. }) && !emptied {
+                    emptied = guarded(|| b.pool.iter().any(|x| matches!(&b.m[*x], selen::variables::Var::VarI(d) if d.is_empty()))).unwrap_or(false);
+                }
+                rs.push(R::Ok)
+            }
             Some(Some(Err(e))) => rs.push(R::Err(e)),
         }
     }
@@ -1144,7 +1153,7 @@ pub fn execute(case: &Case) -> Run {
             Res::Panic { file: loc_file(&loc), loc, msg }
         }
     };
-    Run { steps: rs, call: Some(res) }
+    Run { steps: rs, call: Some(res), emptied }
 }
 
 fn first_panic(run: &Run) -> Option<(usize, String, String, String)> {
@@ -1274,6 +1283,10 @@ fn first_var_rejected(case: &Case) -> bool {
     }
 }
 
+fn has_mul(case: &Case) -> bool {
+    case.steps.iter().any(|s| matches!(s, S::Bin { op: 2, .. }) || s.show().contains('*') || s.show().contains("mul("))
+}
+
 fn has_bad_table_row(case: &Case) -> bool {
     case.steps.iter().any(|s| matches!(s, S::Table { vs, rows, .. } if rows.iter().any(|r| r.len() != vs.len())))
 }
@@ -1299,7 +1312,16 @@ pub fn tag_panic(case: &Case, file: &str, msg: &str) -> String {
     if kind == "index" && (file.ends_with("variables/views.rs") || file.ends_with("variables/core.rs")) && first_var_rejected(case) {
         return "memory-limit-dummy-varid-panic".into();
     }
-    if kind == "overflow" && extreme {
+    // the files in which the unchanged tree overflows i32 on extreme arguments (bounds arithmetic of
+    // domains, views, `Val`, the linear propagators and the posting helpers); an overflow anywhere
+    // else is not the recorded finding
+    const OVERFLOW_FILES: [&str; 10] = [
+        "variables/views.rs", "variables/domain/sparse_set.rs", "constraints/props/linear.rs", "variables/core.rs",
+        "constraints/functions.rs", "runtime_api/mod.rs", "core/validation.rs", "constraints/api/arithmetic.rs",
+        // (`-x` / `x * y` through the operator traits of `Val` and the views are reported inside std)
+        "src/ops/arith.rs", "src/num/mod.rs",
+    ];
+    if kind == "overflow" && extreme && OVERFLOW_FILES.iter().any(|f| file.ends_with(f)) {
         return "i32-overflow".into();
     }
     // in-range operands (|v| <= 10^6) whose PRODUCT leaves i32: `Val * Val` in the bounds of `mul`
@@ -1687,7 +1709,10 @@ fn finite_ok(x: &XV) -> bool {
 fn judge(out: &mut Out, line: usize, case: &Case, run: &Run, stream: &str) {
     // (1) panics
     if let Some(site) = first_panic(run) {
-        let tag = tag_panic(case, &site.1, &site.3);
+        let mut tag = tag_panic(case, &site.1, &site.3);
+        if tag == "-" && run.emptied && msg_kind(&site.3) == "assert" && site.1.ends_with("domain/sparse_set.rs") && site.3.contains("is_empty") {
+            tag = "empty-domain-view-panic".into();
+        }
         let min = minimise(case, &site);
         out.stat(&format!("{stream}.panic"));
         out.fail(line, "C17", &tag, format!("panic at {} ({}) in step {} of [{}]; minimised: [{}]", site.2, site.3.chars().take(90).collect::<String>(), site.0, case.show(), min.show()));
@@ -1777,12 +1802,41 @@ fn stat_case(out: &mut Out, stream: &str, case: &Case, run: &Run) {
 /// some step mentions two integers at least 200 000 apart (a domain of that many values: every
 /// search node clones it, which makes the run slow far beyond its timeout)
 fn big_domain(case: &Case) -> bool {
+    // (the result variable of a product spans the product of the operand bounds)
+    if has_mul(case) && case.steps.iter().flat_map(|s| s.ints()).any(|v| v.abs() >= 450) {
+        return true;
+    }
     case.steps.iter().any(|s| {
         let v = s.ints();
         match (v.iter().min(), v.iter().max()) {
             (Some(a), Some(b)) => b.saturating_sub(*a) >= 200_000,
             _ => false,
         }
+    })
+}
+
+/// a float variable at a precision of 7 digits or finer: propagators that narrow a float interval
+/// one step per round (a strict comparison of a variable with itself, two contradictory strict
+/// comparisons) need 10^7 and more rounds per node; slow, not hung, and not C17's subject
+fn fine_float(case: &Case) -> bool {
+    case.cfg.precision.map_or(false, |p| p >= 7)
+        && case.steps.iter().any(|s| match s {
+            S::Float(..) | S::Floats(..) => true,
+            S::NewVar(a, b) => matches!(a, A::F(_)) || matches!(b, A::F(_)),
+            _ => false,
+        })
+}
+
+/// a float variable with a bound off the step grid of the configured precision: the bisection of
+/// such an interval can reach a width on which `try_set_max(mid)` changes nothing (recorded finding
+/// `float-split-half-step-no-progress`: the search then never returns and grows without bound)
+fn off_grid(case: &Case) -> bool {
+    let step = 10f64.powi(-case.cfg.precision.filter(|p| (1..=12).contains(p)).unwrap_or(6));
+    let off = |b: f64| b.is_finite() && { let q = b / step; (q - q.round()).abs() > 1e-6 * q.abs().max(1.0) };
+    case.steps.iter().any(|s| match s {
+        S::Float(a, b) | S::Floats(_, a, b) => off(*a) || off(*b),
+        S::NewVar(a, b) => [a, b].iter().any(|v| matches!(v, A::F(f) if off(*f))),
+        _ => false,
     })
 }
 
@@ -1858,15 +1912,24 @@ struct Iso {
 /// (`search/mod.rs`: the limit checks sit outside the descent loop), which shows as a hang or, when the
 /// cloned spaces pile up, as an allocation failure
 fn tag_hang(case: &Case, at: &str) -> String {
-    if at.starts_with("call") && float_risk(case) { "float-split-no-progress".into() } else { "-".into() }
+    if at.starts_with("call") && float_risk(case) {
+        "float-split-no-progress".into()
+    } else if at.starts_with("call") && off_grid(case) {
+        "float-split-half-step-no-progress".into()
+    } else {
+        "-".into()
+    }
 }
 fn tag_abort(case: &Case, at: &str) -> String {
     if at.starts_with("call") && float_risk(case) {
         "float-split-no-progress".into()
-    } else if case.extreme() {
+    } else if at.starts_with("call") && off_grid(case) {
+        "float-split-half-step-no-progress".into()
+    } else if case.extreme() || (has_mul(case) && case.steps.iter().flat_map(|s| s.ints()).any(|v| v.abs() >= 10_000)) {
         // a creation / posting step, or the bound inference at the start of the solving call
         // (`infer_unbounded_from_asts` for universes touching the i32::MIN / i32::MAX sentinels),
-        // allocated a sparse set of more than 1.5 GB
+        // allocated a sparse set of more than 1.5 GB; so does the result variable of a product
+        // of in-range operands (`mul(v,v)` with v up to 46340: a domain of 2^31 values)
         "huge-domain-allocation".into()
     } else {
         "-".into()
@@ -1888,9 +1951,10 @@ fn run_isolated(out: &mut Out, iso: &Iso, case: &Case, stream: &str) {
     );
     let mut ch = Command::new("sh").arg("-c").arg(cmd).stdout(Stdio::piped()).stderr(Stdio::null()).spawn().unwrap();
     let t0 = std::time::Instant::now();
-    // the known non-terminating class (float step below ULP) is given 1.5 s, everything else 6 s:
+    // the known non-terminating class (float step below ULP) is given 1.5 s, the known slow classes 8 s, everything else 30 s:
     // a search that merely overruns its 150 ms timeout is slow, not hung (limits are C15)
-    let patience = if float_risk(case) { 1500 } else { 6000 };
+    // (generous: on a loaded machine a 3 s overrun of a 150 ms timeout must not look like a hang)
+    let patience = if float_risk(case) { 1500 } else if off_grid(case) || big_domain(case) { 8000 } else { 30000 };
     let status = loop {
         match ch.try_wait() {
             Ok(Some(st)) => break Some(st),
@@ -1935,7 +1999,7 @@ fn run_isolated(out: &mut Out, iso: &Iso, case: &Case, stream: &str) {
             out.stat(&format!("{stream}.abort"));
             out.fail(line, "C17", &tag_abort(case, &at), format!("process aborted in `{at}` (allocation failure under a 1.5 GB address-space limit, or a non-unwinding panic): [{}]", case.show()));
         }
-        None if !float_risk(case) && big_domain(case) => {
+        None if !float_risk(case) && (big_domain(case) || fine_float(case)) => {
             // a space with a domain of several 10^5 values is cloned at every search node: the run
             // is slow (and honours its timeout late), not hung; not judged (limits are C15's subject)
             let at = text.lines().filter(|l| l.starts_with("P\t")).last().map(|l| l[2..].to_string()).unwrap_or_default();
@@ -1966,7 +2030,7 @@ fn api_case(out: &mut Out, id: &str, r: &mut Rng, extreme: bool, iso: &Iso) {
     if std::env::var("MAL_TRACE").is_ok() {
         eprintln!("{id} {}", case.show());
     }
-    if !iso.child && (float_risk(&case) || is_ext || iso.fixed || big_domain(&case)) {
+    if !iso.child && (float_risk(&case) || is_ext || iso.fixed || big_domain(&case) || fine_float(&case) || off_grid(&case)) {
         run_isolated(out, iso, &case, stream);
         return;
     }
